@@ -152,6 +152,8 @@ def propagate_via_ctx_flag():
     sub(RP,"if found_exception and self.propagate_exceptions:","if found_exception:")
     sub(RP,"                self.broker.dependency_overrides or None,\n            )","                self.broker.dependency_overrides or None,\n                self.propagate_exceptions,\n            )")
 @m
+def seeded_c06_1(): sub(RP,"broker_ctx.copy(),","broker_ctx.copy() if dependency_graph.subgraphs else broker_ctx,")
+@m
 def none(): pass
 
 def main():
